@@ -1395,10 +1395,11 @@ def r_emptydef(ctx, rep):
                 d = norm(p["res"].get("ctor_of") or p["res"].get("def"))
             if d and re.search(r"datatype::Data(Ref)?::[A-Z]\w*$", d):
                 variants.add(d.rsplit("::", 1)[-1])
-        payload = [c for c in walk_k(fn.body, "MethodCall") if c.get("name") in ("is_empty", "len") and "datatype::" not in (callee(c) or "")]
+        payload = [c for c in walk_k(fn.body, "MethodCall") if not (callee(c) or "").endswith("::eq") and not ((callee(c) or "").endswith("::is_empty") and "datatype::" in (callee(c) or ""))]
+        payload += [b for b in walk_k(fn.body, "Binary") if b.get("op") in ("||", "&&")]
         deleg = [c for c in walk_k(fn.body, "MethodCall", "Call") if (callee(c) or "").endswith("::is_empty") and "datatype::" in (callee(c) or "")]
         if payload or (variants - {"Empty"}):
-            rep.violation("R-EMPTYDEF", key, loc(fn.raw), "%s treats more than the Empty variant as empty (%s): a cell holding an empty string would be dropped by the readers' Empty filter and skipped by map deserialization" % (fn.name, ", ".join(sorted(variants - {"Empty"})) or "a payload emptiness test"))
+            rep.violation("R-EMPTYDEF", key, loc(fn.raw), "%s treats more than the Empty variant as empty (%s): a cell holding an empty string would be dropped by the readers' Empty filter and skipped by map deserialization" % (fn.name, ", ".join(sorted(variants - {"Empty"})) or "a further condition on the value (method call or || / &&)"))
         elif variants == {"Empty"} or deleg:
             rep.holds("R-EMPTYDEF", key, loc(fn.raw), "empty iff the Empty variant" if variants else "delegates to another Data/DataRef is_empty (checked on its own)")
         else:
@@ -1551,3 +1552,116 @@ def r_names1to1(ctx, rep):
         else:
             rep.holds("R-NAMES1TO1", key, loc(l), "rebuilt one-to-one (%s)" % " . ".join(reversed(chain)))
     rep.floor("R-NAMES1TO1", 1, "the sheet-prefixing pass over defined_names")
+
+
+# ----------------------------------------------------------------------------------------------
+# R-CHARCAST: no `char as u8` on a character that is not known to be ASCII (shared-formula rewriter)
+
+def _ascii_guarded(cast, anc, lid):
+    """is the cast inside the then-branch of an `if <lid>.is_ascii_*()` (possibly an else-if chain arm)?"""
+    for a in anc:
+        if a.get("k") != "If":
+            continue
+        in_then = any(x is cast for x in walk(a["then"]))
+        if not in_then:
+            continue
+        for m in walk_k(a["cond"], "MethodCall"):
+            if m.get("name", "").startswith("is_ascii") and path_local(peel(m["recv"])) and path_local(peel(m["recv"]))[1] == lid:
+                return True
+    return False
+
+
+def r_charcast(ctx, rep):
+    """C14 (xlsx: the stored text): the rewriter that derives the formulas of a shared group copies every character
+    that is not part of a cell reference.  A `char as u8` keeps only the low byte, so it is lossless only for a
+    character known to be ASCII: each such cast in replace_cell_names / offset_cell_name must lie in the then-branch
+    of an is_ascii_*() test of the same character, or take its character from a buffer that is only filled under
+    such a test.  (On the pinned tree a string literal such as "été" made the rewrite fail and with it the whole
+    worksheet_formula call.)"""
+    F = ctx.facts("default")
+    n = 0
+    for name in ("xlsx::replace_cell_names", "xlsx::offset_cell_name"):
+        fn = F.fn(name)
+        if fn is None:
+            rep.anchor_missing("R-CHARCAST", name)
+            continue
+        # buffers of chars that are only pushed to under an ASCII guard
+        safe_bufs = set()
+        pushes = defaultdict(list)
+        for c, anc in walk_anc(fn.body):
+            if c.get("k") == "MethodCall" and c.get("name") == "push" and (peel(c["recv"]).get("ty") or "").replace("&mut ", "") == "alloc::vec::Vec<char>" and path_local(peel(c["recv"])):
+                arg = peel(c["args"][0]) if c.get("args") else None
+                pl = path_local(arg) if arg else None
+                pushes[path_local(peel(c["recv"]))[1]].append(bool(pl) and _ascii_guarded(c, anc, pl[1]))
+        for lid, oks in pushes.items():
+            if oks and all(oks):
+                safe_bufs.add(lid)
+        params_chars = name.endswith("offset_cell_name")   # its `name: &[char]` argument is such a buffer at every call site
+        k = 0
+        for c, anc in walk_anc(fn.body):
+            if c.get("k") != "Cast" or c.get("ty") != "u8" or (unwrap(c["e"]).get("ty") or "").lstrip("&") != "char":
+                continue
+            k += 1
+            n += 1
+            key = "%s|R-CHARCAST|cast#%d" % (name, k)
+            pl = path_local(peel(c["e"]))
+            ok = False
+            why = ""
+            if pl and _ascii_guarded(c, anc, pl[1]):
+                ok, why = True, "inside `if %s.is_ascii_*()`" % pl[0]
+            else:
+                # closure parameter of `<buf>.iter().map(|c| *c as u8)`
+                for a in anc:
+                    if a.get("k") == "MethodCall" and a.get("name") in ("map", "for_each") and any(x is c for x in walk(a.get("args"))):
+                        root = peel(a["recv"])
+                        while isinstance(root, dict) and root.get("k") == "MethodCall":
+                            root = peel(root["recv"])
+                        rl = path_local(root) if isinstance(root, dict) else None
+                        if rl and (rl[1] in safe_bufs or (params_chars and any(p.get("lid") == rl[1] for p in fn.params))):
+                            ok, why = True, "characters of `%s`, a buffer filled only under an ASCII test" % rl[0]
+            if ok:
+                rep.holds("R-CHARCAST", key, loc(c), why)
+            else:
+                rep.violation("R-CHARCAST", key, loc(c), "%s: `%s as u8` on a character that is not known to be ASCII: any other character (an accented letter in a string literal or sheet name) is cut to its low byte, the result is not valid UTF-8 and worksheet_formula fails for the whole sheet" % (name, pl[0] if pl else "<char>"))
+    # when the rewriter no longer builds bytes there is nothing to cast: that is fine
+    if n == 0:
+        rep.holds("R-CHARCAST", "xlsx::replace_cell_names|R-CHARCAST|none", "-", "the rewriter performs no char -> u8 cast", nontrivial=False)
+
+
+def r_ovbachunk(ctx, rep):
+    """C18 / C06: a compressed chunk is exhausted after CompressedChunkSize + 1 data bytes, and that can happen exactly
+    at the end of a flag group (token count a multiple of 8).  Every read of a flag byte in the chunk loop of
+    cfb::decompress_stream must therefore come after a test of the consumed length against the chunk size in the
+    same iteration -- otherwise the first header byte of the next chunk is taken for a flag byte."""
+    F = ctx.facts("default")
+    fn = F.fn("cfb::decompress_stream")
+    key = "cfb::decompress_stream|R-OVBACHUNK"
+    if fn is None:
+        rep.anchor_missing("R-OVBACHUNK", "cfb::decompress_stream")
+        return
+    found = False
+    for lp in walk_k(fn.body, "Loop"):
+        if lp.get("src") not in ("loop", "Loop", None) and lp.get("src") != "loop":
+            pass
+        blk = lp.get("body") or {}
+        stmts = blk.get("stmts") or []
+        flag_i = None
+        for i, s_ in enumerate(stmts):
+            if s_.get("k") == "Let" and s_.get("init") is not None and unwrap(s_["init"]).get("k") == "Index" and (s_["pat"].get("name") or "").startswith("bit"):
+                flag_i = i
+        if flag_i is None:
+            continue
+        found = True
+        guard = None
+        for s_ in stmts[:flag_i]:
+            e = unwrap(s_.get("e") or {})
+            if e.get("k") == "If":
+                names = {path_local(p)[0] for p in walk_k(e["cond"], "Path") if path_local(p)}
+                if {"chunk_len", "chunk_size"} <= names and any(x.get("k") == "Break" for x in walk(e["then"])):
+                    guard = e
+        if guard is not None:
+            rep.holds("R-OVBACHUNK", key, loc(guard), "the flag byte is read only after `chunk_len` was tested against `chunk_size`")
+        else:
+            rep.violation("R-OVBACHUNK", key, loc(stmts[flag_i]), "the flag byte of the next token group is read without first testing whether the chunk is exhausted (chunk_len > chunk_size): when a chunk ends exactly on a full flag group, the next chunk's header byte is consumed as a flag byte and the container is misparsed (signature assertion fails)")
+    if not found:
+        rep.anchor_missing("R-OVBACHUNK", "flag-byte read (`let bit_flags = s[i]`) in the chunk loop of decompress_stream")
